@@ -33,7 +33,7 @@ func CheckDataRefs(reg template.Registry) (err error) {
 		// check that all params appear in the usedKeys
 		var unusedParamNames []string
 		for _, param := range tc.params {
-			if !contains(tc.usedKeys, param) {
+			if !contains(tc.usedKeys, param) && !contains(tc.passedParams, param) {
 				unusedParamNames = append(unusedParamNames, param)
 			}
 		}
@@ -51,6 +51,11 @@ type templateChecker struct {
 	letFrom  []int // for each let var, the number of used keys recorded when it was declared
 	forVars  []string
 	usedKeys []string
+
+	// passedParams are the @params forwarded to a callee by data="all". That
+	// passes the template's own params, never a {let} or loop variable that
+	// happens to shadow one, so it is recorded apart from the scoped usedKeys.
+	passedParams []string
 }
 
 func newTemplateChecker(reg template.Registry, tpl template.Template) *templateChecker {
@@ -58,7 +63,7 @@ func newTemplateChecker(reg template.Registry, tpl template.Template) *templateC
 	for _, param := range tpl.Doc.Params {
 		paramNames = append(paramNames, param.Name)
 	}
-	return &templateChecker{reg, paramNames, nil, nil, nil, nil}
+	return &templateChecker{reg, paramNames, nil, nil, nil, nil, nil}
 }
 
 func (tc *templateChecker) checkTemplate(node ast.Node) {
@@ -132,7 +137,7 @@ func (tc *templateChecker) checkCall(node *ast.CallNode) {
 	if node.AllData {
 		for _, param := range tc.params {
 			if contains(allCalleeParamNames, param) {
-				tc.usedKeys = append(tc.usedKeys, param)
+				tc.passedParams = append(tc.passedParams, param)
 				callerParamNames = append(callerParamNames, param)
 			}
 		}
